@@ -1,11 +1,19 @@
 import Driver.Util
 import Driver.Suites.Blocks
 import Driver.Suites.Loop
+import Driver.Suites.Request
+import Driver.Suites.Readpath
+import Driver.Suites.WQ
+import Driver.Suites.Cache
 /-! Table of suites known to the driver.  One line per suite (merge=union friendly). -/
 namespace Driver
 def registry : List Suite := [
   Suites.Blocks.suite,
   Suites.Loop.mkSuite "loop-dl",
   Suites.Loop.mkSuite "lifecycle",
+  Suites.Request.suite,
+  Suites.Readpath.suite,
+  Suites.WQ.suite,
+  Suites.Cache.suite,
 ]
 end Driver
